@@ -30,6 +30,8 @@ func writeEvidence(tier string, seed uint64, digest string, info map[string]inte
 	faults := map[string]int{}
 	byMode := map[string]int{}
 	byKind := map[string]int{}
+	byShape := map[string]int{}
+	discarded := 0
 	famMode := map[string]int{}
 	byK := map[string]int{}
 	byTasks := map[string]int{}
@@ -52,6 +54,10 @@ func writeEvidence(tier string, seed uint64, digest string, info map[string]inte
 		}
 		byMode[r.Mode]++
 		byKind[r.Kind]++
+		if r.Shape != "" {
+			byShape[r.Shape]++
+		}
+		discarded += r.Discarded
 		byK[fmt.Sprint(r.K)]++
 		switch {
 		case r.NTasks <= 4:
@@ -206,6 +212,8 @@ func writeEvidence(tier string, seed uint64, digest string, info map[string]inte
 			"cold_order_oracle_runs":                        coldChecked,
 			"runs_by_mode":                                  byMode,
 			"runs_by_kind":                                  byKind,
+			"runs_by_shape":                                 byShape,
+			"discarded_repetitions_of_long_lived_callers":   discarded,
 			"runs_by_preemption_target_k":                   byK,
 			"runs_by_task_count":                            byTasks,
 			"max_tasks_in_a_run":                            maxTasks,
